@@ -85,6 +85,7 @@ type PodRec struct {
 	FilterOK  bool
 	// snapshot taken at the last Filter (for M-sticky / M-multi)
 	heldAtFilter     []string
+	heldAfterFilter  []string // what the pod's key held right after its last filter
 	reservedAtFilter []string
 	FilterConfGen    int  // configuration generation at the last filter
 	PoolSizeAtFilter int  // size of the pod's pool visible at the last filter (-1 = no Pool object)
@@ -112,25 +113,26 @@ type Sim struct {
 	Steps []Step
 	stepN int
 	// monitor state
-	prevDump      map[string]world.DumpEntry
-	allocStep     map[string]int // ip -> step at which its current key was first seen
-	faultMode     world.InjectKind
-	caseID        string
-	api           http.Handler
-	poolSizes     map[string]int // truth pool sizes (Pool objects), -1 = none
-	confSeq       []*model.Topo
-	lastOpErr     error
-	released200   map[string]bool // IPs the API released in the current step
-	reloadDropped map[string]bool
-	confGen       int
-	pendingReload *model.Topo
-	pauseIPAM     func(method string, after bool) bool // set before runPaused: pause point between IPAM calls
-	compound      bool                                 // an interleaved (two-goroutine) execution is in progress: steps skip their monitors
-	faultTag      string                               // signature suffix of the execution mode
-	recMu         sync.Mutex
-	lastBindPod   string
-	adminReserved map[string]bool // harness's own record of reservations made and not yet undone
-	provFault     bool
+	prevDump        map[string]world.DumpEntry
+	allocStep       map[string]int // ip -> step at which its current key was first seen
+	faultMode       world.InjectKind
+	caseID          string
+	api             http.Handler
+	poolSizes       map[string]int // truth pool sizes (Pool objects), -1 = none
+	confSeq         []*model.Topo
+	lastOpErr       error
+	released200     map[string]bool // IPs the API released in the current step
+	everReleased200 map[string]bool // IPs the API ever released in this history
+	reloadDropped   map[string]bool
+	confGen         int
+	pendingReload   *model.Topo
+	pauseIPAM       func(method string, after bool) bool // set before runPaused: pause point between IPAM calls
+	compound        bool                                 // an interleaved (two-goroutine) execution is in progress: steps skip their monitors
+	faultTag        string                               // signature suffix of the execution mode
+	recMu           sync.Mutex
+	lastBindPod     string
+	adminReserved   map[string]bool // harness's own record of reservations made and not yet undone
+	provFault       bool
 	simExtra
 }
 
@@ -178,7 +180,7 @@ func NewSim(rng *rand.Rand, caseID string, withProvider, withTApp bool) (*Sim, e
 		return nil, err
 	}
 	s := &Sim{W: w, Topo: t, rng: rng, Pods: map[string]*PodRec{}, caseID: caseID, allocStep: map[string]int{},
-		poolSizes: map[string]int{}, released200: map[string]bool{}, reloadDropped: map[string]bool{}}
+		poolSizes: map[string]int{}, released200: map[string]bool{}, everReleased200: map[string]bool{}, reloadDropped: map[string]bool{}}
 	s.Counts = map[string]int{}
 	s.adminReserved = map[string]bool{}
 	s.replHist = map[string][]int{}
@@ -756,6 +758,7 @@ func (s *Sim) stepAPIRelease(target string) {
 	_ = json.Unmarshal(body2, &rr)
 	if code2 == 200 && len(rr.Unreleased) == 0 {
 		s.released200[f.IP] = true
+		s.everReleased200[f.IP] = true
 	}
 	s.lastOpErr = nil
 	s.record("api-release", fmt.Sprintf("%s pod=%s app=%s type=%s pool=%s releasable=%v", f.IP, f.PodName, f.AppName,
